@@ -262,6 +262,17 @@ def r3_polya(repo, report):
         bad = []
         key_base = f"eq:SEQ[I]:{base.encode()!r}"
         for r in rows:
+            if r.exit[0] in ("break", "return", "raise"):
+                # leaving the scan early is sound only when no longer tail can qualify any more: the mismatches seen so far
+                # already exceed 20% of the WHOLE read (errors * 5 > n, strictly - at equality the whole read still qualifies)
+                jx = Executor(None, r.valuation)
+                try:
+                    sound = isinstance(r.env.get("errors"), Lin) and jx.compare(ast.Gt(), r.env["errors"].scale(5), Lin.atom("N"))
+                except NeedAtom:
+                    sound = False
+                if not sound:
+                    bad.append(("the scan is left early although a longer tail could still have at most 20% other bases", {k: v for k, v in r.valuation.items() if "ERRORS" in k or "N" in k}))
+                continue
             isb = r.valuation.get(key_base)
             if isb is None:
                 bad.append((f"the base test is not s[i] == b'{base}'", sorted(r.valuation)))
